@@ -293,8 +293,16 @@ def build(shape, gin, lists_on='target'):
            f'  {deco}\n'
            f'  def {meth}(self, {signature_source(shape)}):\n'
            f'    return {record_source(shape)}\n')
+    if shape.get('nested_host') == 'class':
+      # the host class is nested in another class: its qualname is Outer.Host
+      src = f'class {host}Outer:\n' + ''.join('  ' + l + '\n' for l in src.splitlines())
+    elif shape.get('nested_host') == 'function':
+      # ... or defined inside a function: its qualname is make.<locals>.Host
+      src = (f'def {host}_make():\n' + ''.join('  ' + l + '\n' for l in src.splitlines()) +
+             f'  return {host}\n{host} = {host}_make()\n')
     exec(compile(src, f'<{modname}>', 'exec'), mod.__dict__)  # pylint: disable=exec-used
-    cls = mod.__dict__[host]
+    cls = (mod.__dict__[host + 'Outer'].__dict__[host] if shape.get('nested_host') == 'class'
+           else mod.__dict__[host])
     name = meth
     original = inspect.unwrap(cls.__dict__[name])
     host_kwargs = {'module': gin_module} if gin_module is not None else {}
